@@ -303,7 +303,7 @@ impl<T: Type> TypJr for V<T> {
 /// All scenario families for one (circuit, measurement) line.
 fn unit<F: TinyField, T: Type<Field = F> + FromSpec>(t: &T, p: u64, c: &Value, m: &Value, family: &str, g: &mut Gen, out: &mut Vec<Value>, idx: u64) {
     JR_LEN.with(|x| x.set(t.joint_rand_len()));
-    let nagg: u8 = match family { "honest" => [2, 3, 4, 2, 5][(idx % 5) as usize], "wide" => [128, 254, 17, 129][(idx % 4) as usize], _ => [2, 3][(idx % 2) as usize] };
+    let nagg: u8 = match family { "honest" => [2, 3, 4, 2, 5][(idx % 5) as usize], "wide" => [128, 254, 17, 129][(idx % 4) as usize], "pair" => [2, 3, 5, 8][(idx % 4) as usize], _ => [2, 3][(idx % 2) as usize] };
     let np: u8 = if family == "wide" { 1 } else if family == "proofs" { [4, 255, 17, 128][(idx % 4) as usize] } else { [1, 1, 2, 1, 3][((idx / 2) % 5) as usize] };
     let family = if family == "wide" || family == "proofs" { "honest" } else { family };
     let vdaf: V<T> = Prio3::new(nagg, np, ALGO, t.clone()).unwrap();
